@@ -1,0 +1,6 @@
+//go:build verif
+
+package fasthttp
+
+// VerifServerStopping reports whether Shutdown has set the stop flag (read by the serve loop).
+func VerifServerStopping(s *Server) bool { return s.stop.Load() == 1 }
